@@ -18,6 +18,7 @@ fn factory(model: &str) -> Option<Factory> {
         "windows" => Box::new(|c: &Value| Box::new(models::windows::WN::new(c)) as Box<dyn Model>),
         "join" => Box::new(|c: &Value| Box::new(models::join::JN::new(c)) as Box<dyn Model>),
         "backward" => Box::new(|c: &Value| Box::new(models::backward::BW::new(c)) as Box<dyn Model>),
+        "parallel" => Box::new(|c: &Value| Box::new(models::parallel::PX::new(c)) as Box<dyn Model>),
         _ => return None,
     })
 }
